@@ -16,7 +16,7 @@ import (
 func init() {
 	register("C20",
 		"that a k-th-weekday festival is reported exactly once per year (that needs the weekday arithmetic of C04) and the contents of the festival name tables.",
-		r20_1, r20_2, r20_3, r20_4, r04_3, r17_5)
+		r20_1, r20_3, r20_4, r04_3, r17_5)
 }
 
 func r20_1(c *Ctx, r *Report) {
@@ -181,101 +181,13 @@ func evalNumExpr(v ssa.Value, leaf func(ssa.Value) (float64, bool), depth int) (
 	return 0, false
 }
 
-func r20_2(c *Ctx, r *Report) {
-	const rule = "R20.2"
-	r.rule(rule, "Festival keys. In Solar.GetFestivals every lookup in SolarUtil.FESTIVAL uses a key composed as month-day of the receiver, and the lookups in SolarUtil.WEEK_FESTIVAL use month-occurrence-weekday and month-0-weekday, whatever way the key is composed (Sprintf with plain %d verbs, strconv.Itoa and concatenation are read as templates); the occurrence expression equals ceil(day/7) for every day 1..31, the weekday is the receiver's own GetWeek, (when the month-0-weekday lookup is made is decided by R20.4); the key grammars match the tables (R08.7).")
-	fn := c.Fn(r, rule, "calendar.(*Solar).GetFestivals")
-	if fn == nil {
-		return
-	}
-	recv := ssa.Value(fn.Params[0])
-	describe := func(v ssa.Value) string {
-		if call, ok := v.(*ssa.Call); ok && call.Common().StaticCallee() != nil && fname(call.Common().StaticCallee()) == "calendar.(*Solar).GetWeek" && call.Common().Args[0] == recv {
-			return "p0.GetWeek()"
-		}
-		return describeArg(c, fn, v)
-	}
-	// fixed-date keys
-	fixed := mapLookups(fn, "SolarUtil.FESTIVAL")
-	var got []string
-	okFixed := len(fixed) > 0
-	for _, lk := range fixed {
-		t, ok := keyTemplate(lk.Index, 0)
-		ts := "(not a composed key)"
-		if ok {
-			ts = templateString(t, describe)
-		}
-		got = append(got, ts)
-		if ts != "{p0.month}-{p0.day}" {
-			okFixed = false
-		}
-	}
-	r.check(okFixed, rule, "calendar.(*Solar).GetFestivals keys fixed-date festivals by month-day", c.fnPos(fn), fmt.Sprintf("FESTIVAL lookups with keys %v", got))
-	// weekday keys
-	var kth, last []*ssa.Lookup
-	var occ ssa.Value
-	var other []string
-	for _, lk := range mapLookups(fn, "SolarUtil.WEEK_FESTIVAL") {
-		t, ok := keyTemplate(lk.Index, 0)
-		if !ok {
-			other = append(other, "(not a composed key)")
-			continue
-		}
-		occName := ""
-		ts := templateString(t, func(v ssa.Value) string {
-			d := describe(v)
-			if strings.HasPrefix(d, "?") {
-				occ = v
-				occName = d
-				return "occurrence"
-			}
-			return d
-		})
-		switch ts {
-		case "{p0.month}-{occurrence}-{p0.GetWeek()}":
-			kth = append(kth, lk)
-		case "{p0.month}-0-{p0.GetWeek()}":
-			last = append(last, lk)
-		default:
-			other = append(other, ts+" "+occName)
-		}
-	}
-	r.check(len(kth) == 1 && len(last) == 1 && len(other) == 0, rule, "calendar.(*Solar).GetFestivals keys weekday festivals by month-occurrence-weekday and month-0-weekday", c.fnPos(fn), fmt.Sprintf("%d k-th lookups, %d last lookups, other keys %v", len(kth), len(last), other))
-	// occurrence == ceil(day/7)
-	if len(kth) == 1 && occ != nil {
-		var bad []string
-		for d := 1; d <= 31; d++ {
-			got, ok := evalNumExpr(occ, func(v ssa.Value) (float64, bool) {
-				if rc, f, ok := getterField(c, v); ok && f == "Solar.day" && rc == recv {
-					return float64(d), true
-				}
-				return 0, false
-			}, 0)
-			want := float64((d + 6) / 7)
-			if !ok {
-				bad = append(bad, "expression not evaluable")
-				break
-			}
-			if got != want {
-				bad = append(bad, fmt.Sprintf("day %d -> %v (expected %v)", d, got, want))
-			}
-		}
-		r.check(len(bad) == 0, rule, "the occurrence index is ceil(day/7)", c.fnPos(fn), fmt.Sprintf("31 days evaluated; deviations: %v", headList(bad, 4)))
-	} else {
-		r.bad(rule, "the occurrence index is ceil(day/7)", c.fnPos(fn), "occurrence argument not found (undecided = fail)")
-	}
-	// that the last-occurrence lookup is made exactly when day + 7 > days of the month is decided on the lists
-	// themselves by R20.4 (every day x month length, whatever the control flow looks like)
-	_ = last
-}
-
 func r20_3(c *Ctx, r *Report) {
 	festivalTables(c, r, "R20.3")
 }
 
 func r20_4(c *Ctx, r *Report) {
 	const rule = "R20.4"
-	r.rule(rule, "Every festival of the day is listed. Solar.GetFestivals is followed (evaluator, tables folded, appended names collected in order) for every month 1..12, day 1..31, weekday 0..6 and month length 28..31: the list is the fixed-date festival of month-day if there is one, then the festival of the (ceil(day/7))-th such weekday of the month if there is one, then — when day + 7 exceeds the month length — the festival of the last such weekday if there is one: three independent lookups, none of which suppresses another (a fixed-date festival and a weekday festival can fall on one day).")
+	r.rule(rule, "Every festival of the day is listed. Solar.GetFestivals is followed (evaluator, tables folded, appended names collected in order) for every month 1..12, day 1..31, weekday 0..6 and month length 28..31: the list is the fixed-date festival of month-day if there is one, then the festival of the (ceil(day/7))-th such weekday of the month if there is one, then — when day + 7 exceeds the month length — the festival of the last such weekday if there is one: three independent lookups, none of which suppresses another (a fixed-date festival and a weekday festival can fall on one day). This also decides how the lookup keys are composed and from what (a wrongly composed key changes a list). Solar.GetOtherFestivals likewise, for every month-day: the names SolarUtil.OTHER_FESTIVAL records for it, all of them, in the order of the table, and nothing on other days.")
 	fn := c.Fn(r, rule, "calendar.(*Solar).GetFestivals")
 	fest := c.tabMap(r, rule, "SolarUtil", "FESTIVAL")
 	wfest := c.tabMap(r, rule, "SolarUtil", "WEEK_FESTIVAL")
@@ -351,4 +263,57 @@ func r20_4(c *Ctx, r *Report) {
 		}
 	}
 	r.check(len(bad) == 0 && n > 0, rule, "calendar.(*Solar).GetFestivals lists the fixed-date, the n-th weekday and the last weekday festival", c.fnPos(fn), fmt.Sprintf("%d assignments; deviations: %v", n, headList(bad, 3)))
+	// the other commemorative days: the entry of month-day, every name of it, in the table's order
+	ofn := c.Fn(r, rule, "calendar.(*Solar).GetOtherFestivals")
+	other := c.tabMap(r, rule, "SolarUtil", "OTHER_FESTIVAL")
+	if ofn == nil || len(ofn.Params) != 1 || other == nil {
+		return
+	}
+	bad, n = nil, 0
+	for m := int64(1); m <= 12; m++ {
+		for d := int64(1); d <= 31 && len(bad) < 4; d++ {
+			leaf := func(fr *evalFrame, v ssa.Value) (interface{}, bool) {
+				if rc, f, ok := getterField(c, v); ok {
+					if ofr, o := fr.origin(rc); ofr.parent == nil && o == ssa.Value(ofn.Params[0]) {
+						switch f {
+						case "Solar.year":
+							return int64(2023), true
+						case "Solar.month":
+							return m, true
+						case "Solar.day":
+							return d, true
+						}
+					}
+				}
+				if call, ok := v.(*ssa.Call); ok && call.Common().StaticCallee() != nil && call.Common().StaticCallee().String() == "container/list.New" {
+					return absPtr{"list", false}, true
+				}
+				return nil, false
+			}
+			ev := &evaluator{leaf: leaf, inline: inlineLibrary}
+			var pushed []string
+			ev.collectList(&pushed, func(o interface{}, ok bool) string {
+				if !ok {
+					return "?"
+				}
+				return fmt.Sprint(o)
+			})
+			_, outcome := ev.run(ofn, nil, nil, nil, nil)
+			n++
+			var want []string
+			if e, ok := other.M[fmt.Sprintf("%d-%d", m, d)]; ok {
+				for _, x := range e.L {
+					want = append(want, x.S)
+				}
+			}
+			got := strings.Join(pushed, ",")
+			if outcome != "return" {
+				got = outcome + " " + ev.fail
+			}
+			if got != strings.Join(want, ",") {
+				bad = append(bad, fmt.Sprintf("%d-%d: [%s], stated [%s]", m, d, got, strings.Join(want, ",")))
+			}
+		}
+	}
+	r.check(len(bad) == 0 && n == 372, rule, "calendar.(*Solar).GetOtherFestivals lists the names recorded for month-day, all of them, in order", c.fnPos(ofn), fmt.Sprintf("%d month-day pairs (%d recorded); deviations: %v", n, len(other.Keys), headList(bad, 3)))
 }
